@@ -365,6 +365,10 @@ func (d *drv) waitDone(tag int, why string) bool {
 	if !d.stuck[tag] {
 		d.stuck[tag] = true
 		d.rec.Log("Stuck", "tag", tag, "why", why, "boundMs", int(d.wd/time.Millisecond))
+		// the scenario's verdict is decided (CallerStuck): do not spend the full bound on every further wait
+		if d.wd > 300*time.Millisecond {
+			d.wd = 300 * time.Millisecond
+		}
 	}
 	return false
 }
